@@ -562,3 +562,90 @@ Print Assumptions C03_node_level2.
 Print Assumptions C03_end_to_end2_partial.
 Print Assumptions C03_default_templates.
 Print Assumptions C03_end_to_end2_nonvacuous.
+
+(** * End to end over the extended grammar with a SYNTACTIC side condition ([Proofs/Compose2RenderDoc.v])
+
+    [doc_cores2 lt cx kbg d : option (list core)] is computed from the document alone, without
+    positions or the collector (the accumulator of [doc_cores]: finished items, pending
+    characters).  [core_of2] per item: comment, paragraph break, group, formula (four kinds),
+    environment rendered as its body or wrapped ([transparent_env] / [wrap_env]; whatever its
+    arguments), specials, bare symbol macro, formatting / accent macro with ONE argument — a
+    braced group, possibly after comments, for accents also a one-character token —, [\item]
+    with its optional argument absent or (when [kbg = false]) written, and every %-template
+    macro with as many arguments as slots, each a braced group, an optional group written or
+    absent, a one-character token, possibly after comments.  Not core: the verbatim
+    constructs, control-sequence / specials tokens as arguments, callables other than accents
+    and [\item]. *)
+From PLV Require Import Proofs.Compose2RenderDoc.
+
+(** the meaning of such a document is recognised by [abstract2], with exactly the computed
+    items: any databases, any parsing state, any string [s] in which the document is written at
+    offset [pos] *)
+Theorem C03_doc_tree_core2_partial : forall lt cx kbg s ps pos fol (d : doc2) ks,
+  ok_doc2 cx d = true -> doc_cores2 lt cx kbg d = Some ks -> skipn pos s = unparse2 d ++ fol ->
+  abstract2_items s lt cx kbg (fst (tree_of2 cx ps pos d)) = Some ks.
+Proof.
+  intros lt cx kbg s ps pos fol d ks O C SK.
+  exact (tree_cores2 lt cx kbg s ps pos fol d ks C (Proofs.Compose2Comments.ok_doc_arity2 cx d O) SK).
+Qed.
+
+Theorem C03_end_to_end2_doc_partial : forall (d : doc2) o ks,
+  ok_doc2 cx0 d = true -> doc_cores2 lt0 cx0 (o_kbg o) d = Some ks ->
+  latex_to_text o (unparse2 d) false = Some (render (nfc_accent lt0) o (o_sls o) ks, d0).
+Proof. exact end_to_end2_doc. Qed.
+
+Section EndToEnd2DocExample.
+  Open Scope N_scope.
+  (** [\'e \textbf%c\n{x}\footnote{a $b$}]: an accent with a one-character token, a formatting
+      macro whose argument is preceded by a comment, a keyed template with an absent optional
+      argument and a formula inside its argument *)
+  Let d4 : doc2 := {| d_items2 :=
+    [Mac2 [] [39] [] [Text2 [] [101]];
+     Mac2 [32] [116;101;120;116;98;102] [] [Pre2 [] [99] [10] (Grp2 [] [Text2 [] [120]] [])];
+     Mac2 [] [102;111;111;116;110;111;116;101] []
+          [Abs2; Grp2 [] [Text2 [] [97]; Math2 [32] MDollar [Text2 [] [98]] []] []]]; d_trail2 := [] |}.
+  Let ks4 : list core :=
+    [KAccent 769 (KText [101]); KText [32]; KTransparent [KText [120]];
+     KTransparent [KSpecials [91];
+                   KTransparent [KText [97; 32]; KMath false [36] [36] [36; 98; 36] [KText [98]]];
+                   KSpecials [93]]].
+  (** [\frac{1}{2}\sqrt[3]{x}\begin{itemize}\item[a] b\item c\end{itemize}\begin{center}x~y\end{center}$$z$$] *)
+  Let d1 : doc2 := {| d_items2 :=
+    [Mac2 [] [102;114;97;99] [] [Grp2 [] [Text2 [] [49]] []; Grp2 [] [Text2 [] [50]] []];
+     Mac2 [] [115;113;114;116] [] [Brk2 [] 91 93 [Text2 [] [51]] []; Grp2 [] [Text2 [] [120]] []];
+     Env2 [] [] [105;116;101;109;105;122;101] [Abs2]
+       [Mac2 [] [105;116;101;109] [] [Brk2 [] 91 93 [Text2 [] [97]] []]; Text2 [32] [98];
+        Mac2 [] [105;116;101;109] [32] [Abs2]; Text2 [] [99]] [] [];
+     Env2 [] [] [99;101;110;116;101;114] [] [Text2 [] [120]; Spc2 [] [126] []; Text2 [] [121]] [] [];
+     Math2 [] MDollars [Text2 [] [122]] []]; d_trail2 := [] |}.
+  (** [\verb|x|]: well-formed, not core *)
+  Let dv : doc2 := {| d_items2 := [Vrb2 [] [118;101;114;98] [] 124 [120]]; d_trail2 := [] |}.
+
+  Example C03_end_to_end2_doc_nonvacuous :
+    ok_doc2 cx0 d4 = true
+    /\ unparse2 d4 = [92;39;101;32;92;116;101;120;116;98;102;37;99;10;123;120;125;92;102;111;111;116;110;111;116;101;
+                      123;97;32;36;98;36;125]
+    /\ (forall kbg, doc_cores2 lt0 cx0 kbg d4 = Some ks4)
+    /\ (forall o, latex_to_text o (unparse2 d4) false = Some (render (nfc_accent lt0) o (o_sls o) ks4, d0))
+    (* [éx[a b]] (the blank text node between two constructs is dropped under this policy) *)
+    /\ render (nfc_accent lt0)
+              {| o_math := MMText; o_keep_comments := true; o_sls := sls_bos; o_kbg := false; o_kbg_minlen := 0 |}
+              sls_bos ks4 = [233; 120; 91; 97; 32; 98; 93]
+    (* the syntactic computation agrees with the reading of the meaning tree *)
+    /\ doc_cores2 lt0 cx0 false d1 = doc_tree_cores2 false d1 /\ doc_cores2 lt0 cx0 true d1 = None
+    /\ (exists ks, doc_cores2 lt0 cx0 false d1 = Some ks /\ length ks = 5%nat)
+    /\ ok_doc2 cx0 dv = true /\ doc_cores2 lt0 cx0 false dv = None.
+  Proof.
+    assert (O4 : ok_doc2 cx0 d4 = true) by (vm_compute; reflexivity).
+    assert (C4 : forall kbg, doc_cores2 lt0 cx0 kbg d4 = Some ks4) by (intros [|]; vm_compute; reflexivity).
+    split; [exact O4|]. split; [vm_compute; reflexivity|]. split; [exact C4|].
+    split; [intros o; exact (C03_end_to_end2_doc_partial d4 o ks4 O4 (C4 _))|].
+    split; [vm_compute; reflexivity|]. split; [vm_compute; reflexivity|]. split; [vm_compute; reflexivity|].
+    split; [eexists; split; vm_compute; reflexivity|].
+    split; vm_compute; reflexivity.
+  Qed.
+End EndToEnd2DocExample.
+
+Print Assumptions C03_doc_tree_core2_partial.
+Print Assumptions C03_end_to_end2_doc_partial.
+Print Assumptions C03_end_to_end2_doc_nonvacuous.
